@@ -153,6 +153,7 @@ def case(ctx, rnd, i):
         ctx.count("schema_gen_failed")
         return
     g = gen.DocGen(sch, rnd, wide=0.3, mark_p=0.35)
+    g.odd_chars = True
     d, p = g.doc()
     leaf = sch.leaf
     rs = sch.ref
